@@ -2,7 +2,10 @@
 //
 // A case is a triple of items (three constants or three atoms), each given as a value tree (val.V) plus
 // the route by which the library object is built from it: "ctor" = public constructors, "eval" = the
-// constructor expression printed by the harness' own printer, parsed and evaluated. The second and
+// constructor expression printed by the harness' own printer, parsed and evaluated, "computed" = the
+// value is the RESULT of library functions applied to other values (fn:duration:sum/max/min,
+// fn:time:max/min/add, fn:plus/minus/max/min/sum, fn:float:max/min/mult, fn:string:concat,
+// fn:list:cons/append, fn:pair/map/struct over computed parts; see computedExpr). The second and
 // third item are derived from the first so that equal pairs, print-alike pairs, hash colliders and
 // one-leaf near misses are frequent.
 //
@@ -27,6 +30,7 @@ import (
 	"codeberg.org/TauCeti/mangle-go/ast"
 	"codeberg.org/TauCeti/mangle-go/functional"
 	"codeberg.org/TauCeti/mangle-go/parse"
+	"codeberg.org/TauCeti/mangle-go/symbols"
 	"pgregory.net/rapid"
 	"verif/stats"
 	"verif/val"
@@ -42,7 +46,7 @@ type Arg struct {
 type Item struct {
 	Pred  string `json:"pred,omitempty"`
 	Args  []Arg  `json:"args"`
-	Route string `json:"route"` // "ctor" | "eval"
+	Route string `json:"route"` // "ctor" | "eval" | "computed"
 }
 
 // Case is a triple; Rel[0]/Rel[1] say how items 1 and 2 were derived (statistics only, no influence
@@ -105,20 +109,267 @@ func evalConst(src string) (ast.Constant, error) {
 	return c, nil
 }
 
-func buildConst(v val.V, route string) (ast.Constant, error) {
-	if route == "eval" {
+func buildConst(v val.V, route string, salt uint64, used map[string]bool) (ast.Constant, error) {
+	switch route {
+	case "eval":
 		return evalConst(v.Source())
+	case "computed":
+		return computeConst(v, salt, used)
 	}
 	return v.Build(), nil
 }
 
+// ---------------------------------------------------------------------------------------------
+// Route "computed": the value as the result of library functions.
+
+// chooser is a small deterministic generator (splitmix64): the decomposition of a value is a pure
+// function of the value and the rebuild number, so the replay format needs no further field.
+type chooser struct{ s uint64 }
+
+func (c *chooser) n(n int) int {
+	c.s += 0x9E3779B97F4A7C15
+	z := c.s
+	z = (z ^ (z >> 30)) * 0xBF58476D1CE4E5B9
+	z = (z ^ (z >> 27)) * 0x94D049BB133111EB
+	z ^= z >> 31
+	return int(z % uint64(n))
+}
+
+func apply(f ast.FunctionSym, args ...ast.BaseTerm) ast.ApplyFn {
+	if args == nil {
+		args = []ast.BaseTerm{}
+	}
+	return ast.ApplyFn{Function: f, Args: args}
+}
+
+var offsets = []int64{1, 2, 1000, 1000000, 1000000000, 60000000000, 3600000000000, 86400000000000, 7, 1 << 40}
+
+// computeConst evaluates computedExpr(v).
+func computeConst(v val.V, salt uint64, used map[string]bool) (ast.Constant, error) {
+	ch := &chooser{s: stats.Hash(v.Key()) ^ salt*0x2545F4914F6CDD1D}
+	expr := computedExpr(v, ch, used)
+	r, err := functional.EvalExpr(expr, ast.SubstMap{})
+	if err != nil {
+		return ast.Constant{}, fmt.Errorf("eval %v: %v", expr, err)
+	}
+	c, ok := r.(ast.Constant)
+	if !ok {
+		return ast.Constant{}, fmt.Errorf("%v evaluates to %T, not a constant", expr, r)
+	}
+	return c, nil
+}
+
+// scalarList is the list argument of a reducer: a list constant, or fn:list(...) over the elements.
+func scalarList(ch *chooser, elems []val.V) ast.BaseTerm {
+	if ch.n(2) == 0 {
+		return val.L(elems...).Build()
+	}
+	args := make([]ast.BaseTerm, len(elems))
+	for i, e := range elems {
+		args[i] = e.Build()
+	}
+	return apply(symbols.List, args...)
+}
+
+// place puts the wanted element at a drawn position among the others: not first in two of three cases.
+func place(ch *chooser, others []val.V, wanted val.V) []val.V {
+	pos := len(others)
+	if ch.n(3) == 0 {
+		pos = ch.n(len(others) + 1)
+	}
+	out := append([]val.V{}, others[:pos]...)
+	out = append(out, wanted)
+	return append(out, others[pos:]...)
+}
+
+// computedExpr returns an expression over the functions of package functional whose value is v; the
+// leaves are constants built with the public constructors. int64 arithmetic wraps around exactly as
+// the library's own Go code does. used (may be nil) receives the class of every function used.
+func computedExpr(v val.V, ch *chooser, used map[string]bool) ast.BaseTerm {
+	use := func(class string) {
+		if used != nil {
+			used[class] = true
+		}
+	}
+	// a part of a structured value: computed in two of three cases, else a plain constant
+	part := func(x val.V) ast.BaseTerm {
+		if ch.n(3) == 0 {
+			return x.Build()
+		}
+		return computedExpr(x, ch, used)
+	}
+	// int64 reducers/arithmetics shared by numbers, durations and times: mk builds the scalar kind.
+	x := offsets[ch.n(len(offsets))]
+	switch v.T {
+	case val.Dur, val.Time, val.Num:
+		n := v.Int()
+		mk := map[string]func(int64) val.V{val.Dur: val.D, val.Time: val.T, val.Num: val.I}[v.T]
+		sum, maxf, minf := symbols.DurationSum, symbols.DurationMax, symbols.DurationMin
+		class := "duration"
+		switch v.T {
+		case val.Time:
+			sum, maxf, minf = ast.FunctionSym{}, symbols.TimeMax, symbols.TimeMin
+			class = "time"
+		case val.Num:
+			sum, maxf, minf = symbols.Sum, symbols.Max, symbols.Min
+			class = "number"
+		}
+		switch k := ch.n(6); {
+		case k == 0 && n >= math.MinInt64+x: // maximum of smaller values and n
+			others := []val.V{mk(n - x)}
+			if ch.n(2) == 0 {
+				others = append(others, mk(n-x/2-1))
+			}
+			use(class + "-reducer:max")
+			return apply(maxf, scalarList(ch, place(ch, others, v)))
+		case k == 1 && n <= math.MaxInt64-x: // minimum of larger values and n
+			others := []val.V{mk(n + x)}
+			if ch.n(2) == 0 {
+				others = append(others, mk(n+x/2+1))
+			}
+			use(class + "-reducer:min")
+			return apply(minf, scalarList(ch, place(ch, others, v)))
+		case k == 2 && v.T != val.Time: // sum of parts (2 or 3)
+			a := n - x
+			elems := []val.V{mk(a), mk(x)}
+			if ch.n(2) == 0 {
+				b := offsets[ch.n(len(offsets))]
+				elems = []val.V{mk(a - b), mk(b), mk(x)}
+			}
+			if ch.n(2) == 0 {
+				elems[0], elems[len(elems)-1] = elems[len(elems)-1], elems[0]
+			}
+			use(class + "-reducer:sum")
+			return apply(sum, scalarList(ch, elems))
+		}
+		// binary functions
+		switch v.T {
+		case val.Dur:
+			switch ch.n(3) {
+			case 0:
+				use("duration-fn:add")
+				return apply(symbols.DurationAdd, val.D(n-x).Build(), val.D(x).Build())
+			case 1:
+				use("duration-fn:time-sub")
+				return apply(symbols.TimeSub, val.T(x).Build(), val.T(x-n).Build())
+			}
+			use("duration-fn:from_nanos")
+			return apply(symbols.DurationFromNanos, computedExpr(val.I(n), ch, used))
+		case val.Time:
+			if ch.n(2) == 0 {
+				use("time-fn:add")
+				return apply(symbols.TimeAdd, val.T(n-x).Build(), val.D(x).Build())
+			}
+			use("time-fn:from_unix_nanos")
+			return apply(symbols.TimeFromUnixNanos, computedExpr(val.I(n), ch, used))
+		default:
+			switch ch.n(4) {
+			case 0:
+				use("number-fn:plus")
+				if ch.n(2) == 0 {
+					return apply(symbols.Plus, val.I(x).Build(), val.I(n-x-1).Build(), val.I(1).Build())
+				}
+				return apply(symbols.Plus, val.I(n-x).Build(), val.I(x).Build())
+			case 1:
+				use("number-fn:minus")
+				return apply(symbols.Minus, val.I(x).Build(), val.I(x-n).Build())
+			case 2:
+				use("number-fn:to_unix_nanos")
+				return apply(symbols.TimeToUnixNanos, val.T(n).Build())
+			}
+			use("number-fn:duration-nanos")
+			return apply(symbols.DurationNanos, val.D(n).Build())
+		}
+	case val.Float:
+		f := v.Flt()
+		switch ch.n(3) {
+		case 0:
+			if g := math.Nextafter(f, math.Inf(-1)); !math.IsInf(g, 0) {
+				use("float-reducer:max")
+				return apply(symbols.FloatMax, scalarList(ch, place(ch, []val.V{val.F(g)}, v)))
+			}
+		case 1:
+			if g := math.Nextafter(f, math.Inf(1)); !math.IsInf(g, 0) {
+				use("float-reducer:min")
+				return apply(symbols.FloatMin, scalarList(ch, place(ch, []val.V{val.F(g)}, v)))
+			}
+		}
+		use("float-fn:mult")
+		return apply(symbols.FloatMult, val.F(1).Build(), v.Build()) // 1.0 * f is f for every finite f, -0.0 included
+	case val.Str:
+		// cut at rune boundaries
+		var cuts []int
+		for i := range v.S {
+			cuts = append(cuts, i)
+		}
+		cuts = append(cuts, len(v.S))
+		i := cuts[ch.n(len(cuts))]
+		use("string-fn:concat")
+		if j := cuts[ch.n(len(cuts))]; j > i {
+			return apply(symbols.StringConcatenate, val.S(v.S[:i]).Build(), val.S(v.S[i:j]).Build(), val.S(v.S[j:]).Build())
+		}
+		return apply(symbols.StringConcatenate, val.S(v.S[:i]).Build(), val.S(v.S[i:]).Build())
+	case val.Pair:
+		use("pair-fn")
+		return apply(symbols.Pair, part(v.E[0]), part(v.E[1]))
+	case val.List:
+		if len(v.E) > 0 {
+			switch ch.n(3) {
+			case 0:
+				use("list-fn:cons")
+				return apply(symbols.Cons, part(v.E[0]), part(val.L(v.E[1:]...)))
+			case 1:
+				use("list-fn:append")
+				return apply(symbols.Append, part(val.L(v.E[:len(v.E)-1]...)), part(v.E[len(v.E)-1]))
+			}
+		}
+		use("list-fn:list")
+		args := make([]ast.BaseTerm, len(v.E))
+		for i, e := range v.E {
+			args[i] = part(e)
+		}
+		return apply(symbols.List, args...)
+	case val.Map, val.Struct:
+		var args []ast.BaseTerm
+		for _, kv := range v.KV {
+			if v.T == val.Struct {
+				args = append(args, kv[0].Build(), part(kv[1]))
+			} else {
+				args = append(args, part(kv[0]), part(kv[1]))
+			}
+		}
+		if v.T == val.Struct {
+			use("struct-fn")
+			return apply(symbols.Struct, args...)
+		}
+		use("map-fn")
+		return apply(symbols.Map, args...)
+	}
+	return v.Build() // names and byte strings: no function yields them from other values
+}
+
 // build constructs the library object of the item, pairs rotated by r.
-func (it Item) build(r int) (term, error) {
+func (it Item) build(r int, used map[string]bool) (term, error) {
 	if r > 2 {
-		it.Route = "ctor" // both routes end in ast.Map/ast.Struct; parsing 60 more times adds nothing
+		it.Route = "ctor" // all routes end in ast.Map/ast.Struct; parsing/evaluating 60 more times adds nothing
 	}
 	if it.Pred == "" {
-		return buildConst(rotate(*it.Args[0].C, r), it.Route)
+		return buildConst(rotate(*it.Args[0].C, r), it.Route, uint64(r), used)
+	}
+	if it.Route == "computed" {
+		args := make([]ast.BaseTerm, len(it.Args))
+		for i, a := range it.Args {
+			if a.C != nil {
+				c, err := computeConst(rotate(*a.C, r), uint64(r)+uint64(i)<<8, used)
+				if err != nil {
+					return nil, err
+				}
+				args[i] = c
+			} else {
+				args[i] = ast.Variable{Symbol: a.Var}
+			}
+		}
+		return ast.NewAtom(it.Pred, args...), nil
 	}
 	if it.Route == "eval" {
 		var parts []string
@@ -291,9 +542,14 @@ func judge(c Case, rebuilds int) (v verdict, msg string) {
 				return v, fmt.Sprintf("harness: case has a map with duplicate keys (outside the domain): %s", cv.Key())
 			}
 		}
-		x, err := it.build(0)
+		used := map[string]bool{}
+		x, err := it.build(0, used)
 		if err != nil {
 			return v, fmt.Sprintf("item %d: the constructor expression of %s does not parse and evaluate (route %s): %v", i, it.key(), it.Route, err)
+		}
+		lab["route:"+it.Route] = true
+		for u := range used {
+			lab["computed:"+u] = true
 		}
 		obj[i], key[i] = x, it.key()
 		if ok := observedKey(x); ok != key[i] {
@@ -316,7 +572,7 @@ func judge(c Case, rebuilds int) (v verdict, msg string) {
 			}
 			xs, xh := x.String(), x.Hash()
 			for r := 1; r <= n; r++ {
-				y, err := it.build(r)
+				y, err := it.build(r, nil)
 				if err != nil {
 					return v, fmt.Sprintf("item %d: rebuild %d failed: %v", i, r, err)
 				}
@@ -744,7 +1000,7 @@ func derive(t *rapid.T, v val.V) (val.V, string) {
 }
 
 func genRoute(t *rapid.T) string {
-	return rapid.SampledFrom([]string{"ctor", "ctor", "eval"}).Draw(t, "route")
+	return rapid.SampledFrom([]string{"ctor", "computed", "eval", "ctor", "computed"}).Draw(t, "route")
 }
 
 var preds = []string{"p", "q", "pp", "foo", "foo.bar", "a:b", "p_1"}
